@@ -147,7 +147,7 @@ def c17_runs(chk, w, tier):
 CHECKS = {
     "C01": simple_seq_check("C01", [("base", "allimpacted", 6, 300, 600, []), ("base", "allimpacted", 7, 120, 300, []), ("base", "allimpacted", 8, 30, 100, [])]),
     "C14": simple_seq_check("C14", [("primal", "allimpacted", 6, 200, 500, []), ("primal", "allimpacted", 7, 60, 200, [])], "; warm starts: the oracle's optimal and worst feasible witness solutions, alone, in both orders, and the same value twice with different solutions"),
-    "C19": simple_seq_check("C19", [("cutoff", "allimpacted", 6, 120, 300, []), ("cutoff", "allimpacted", 7, 50, 150, [])], "; cutoff series: the run repeated with the cutoff firing at every poll index k = 1..K+1, consecutive outcomes compared"),
+    "C19": simple_seq_check("C19", [("cutoff", "allimpacted", 6, 120, 300, []), ("cutoff", "allimpacted", 7, 50, 150, []), ("cutoff", "knapsack", 9, 60, 200, []), ("cutoff", "setpack", 9, 20, 80, [])], "; cutoff series: the run repeated with the cutoff firing at every poll index k = 1..K+1, consecutive outcomes compared"),
     "C09": simple_seq_check("C09", [("cache", "allimpacted", 6, 300, 700, []), ("cache", "allimpacted", 7, 120, 300, []), ("cache", "allimpacted", 8, 30, 100, [])],
                             "; each configuration is run without and with the threshold cache (and with cache + dominance): outcomes compared, and the route monitor C09_RouteExists "
                             "(some optimal solution stays reachable through an open node that neither its bound nor a threshold discards) is evaluated by TLC at every pop"),
@@ -155,7 +155,7 @@ CHECKS = {
                             "; each configuration is run without and with the dominance checker (exact rule: superset / capacity with value; weakened rule: additionally keyed by parity)"),
     "C02": simple_seq_check("C02", [("base", "allimpacted", 6, 150, 400, []), ("cache", "allimpacted", 6, 100, 300, []), ("primal", "allimpacted", 6, 60, 200, []), ("cutoff", "allimpacted", 6, 80, 200, []), ("longarc", "longarcs", 6, 60, 200, [])],
                             "; C02 is evaluated on the outcome of every run: uninterrupted, warm-started, cut off at every poll index"),
-    "C05": simple_seq_check("C05", [("cutoff", "allimpacted", 6, 150, 400, []), ("cutoff", "allimpacted", 7, 50, 150, []), ("cutoff", "longarcs", 6, 30, 100, [])],
+    "C05": simple_seq_check("C05", [("cutoff", "allimpacted", 6, 150, 400, []), ("cutoff", "allimpacted", 7, 50, 150, []), ("cutoff", "knapsack", 9, 40, 150, []), ("cutoff", "longarcs", 6, 30, 100, [])],
                             "; cutoff series: the cutoff fires at every poll index k = 1..K+1 (K = polls of the uninterrupted run)"),
     "C15": simple_seq_check("C15", [("longarc", "longarcs", 6, 300, 800, []), ("longarc", "longarcs", 7, 100, 300, [])], "; long-arc models (depth-free lifted tables with neutral elements, set-packing with is_impacted_by): plain diagram vs pooled, cache off/on"),
 }
